@@ -128,7 +128,7 @@ static void *client(void *arg) {
 	for (int c = 0; c < ncalls; c++) {
 		uint64_t r = xs(&t->rng);
 		int kind = mix ? mix : 1 + (int)(r % 3);
-		for (int na = (int)((r >> 24) % 4) - 1; na > 0; na--) {   // 0..2 asynchronous items of this thread ahead of the call
+		for (int na = (t->idx & 1) ? (int)((r >> 24) % 4) - 1 : 0; na > 0; na--) {   // odd clients: 0..2 asynchronous items of this thread ahead of the call
 			item_t *ia = mk_item(K_ASYNC, &t->rng, me); ia->prev = last; last = ia; submit_async(ia);
 		}
 		item_t *it = mk_item(kind, &t->rng, me);
@@ -243,7 +243,12 @@ static void *ot_u_main(void *a) {
 	printf("T 1 %ld client\n", me); fflush(stdout);
 	item_t *x1 = mk_item(K_ASYNC, &rng, me); submit_async(x1); return NULL;
 }
-static void *ot_releaser(void *a) { (void)a; usleep(300000); atomic_store(&release_u, 1); return NULL; }
+static item_t *volatile ot_b;
+// U goes on 300 ms later -- or as soon as b has started (only a library that overtakes gets there: its completion then
+// spins on dq_items_head until U has stored it, which would record a million loads)
+static void *ot_releaser(void *a) { (void)a;
+	for (int k = 0; k < 6000; k++) { item_t *b = ot_b; if (b && atomic_load(&b->t_begin)) break; usleep(50); }
+	atomic_store(&release_u, 1); return NULL; }
 static int overtake_scenario(uint64_t seed) {
 	uint64_t rng = mixh(seed) | 1; long me = (long)syscall(SYS_gettid);
 	chain.n = 0; chain.hash = mixh(7);
@@ -268,9 +273,9 @@ static int overtake_scenario(uint64_t seed) {
 	atomic_store(&release_o, 1);
 	int is_idle = 0; for (int k = 0; k < 20000 && !(is_idle = (*(volatile uint64_t *)&dl->dq_state == idle)); k++) usleep(50);
 	int reached = atomic_load(&o_held) && atomic_load(&u_held) && is_idle;
-	pthread_t rt; pthread_create(&rt, NULL, ot_releaser, NULL);   // U goes on 300 ms later
 	// V: dispatch_sync(b): must not run before x2
-	item_t *b = mk_item(K_SYNC, &rng, me); b->prev = x2;
+	item_t *b = mk_item(K_SYNC, &rng, me); b->prev = x2; ot_b = b;
+	pthread_t rt; pthread_create(&rt, NULL, ot_releaser, NULL);
 	b->t_submit = now();
 	dv_user(DVU_CALL, K_SYNC, (unsigned long long)b->serial, 0);
 	dispatch_sync_f(q, b, item_fn);
